@@ -14,6 +14,9 @@ DumpConstraint ==
     THEN CSVWrite("%1$s", <<ToJson([k |-> "lookup", present |-> SetToSeq(present), cmd |-> cmd, form |-> form,
                                      noangles |-> noangles, incIsCwd |-> incIsCwd, explicit |-> explicit,
                                      viaLink |-> explicitViaLink, dir |-> rres.dir, src |-> rres.src])>>, DumpFile)
+  ELSE IF phase = "chain" /\ chain.level = ChainDepth + 1
+    THEN CSVWrite("%1$s", <<ToJson([k |-> "chain", ways |-> chain.ways, cmd |-> chain.cmd, leafAt |-> SetToSeq(chain.leafAt),
+                                     dir |-> rres.dir, src |-> rres.src])>>, DumpFile)
   ELSE IF phase = "owned"
     THEN CSVWrite("%1$s", <<ToJson([k |-> "own", cmdSpell |-> own.cmdSpell, reach |-> own.reach, order |-> own.order,
                                      cwdHas |-> own.cwdHas, guard |-> guard, entries |-> rcount, src |-> rres.src])>>, DumpFile)
